@@ -8,9 +8,10 @@ add('C07-skipparity-no-wrap', 'mut07', 1, 'C07',
     needs="FEC ids reaching the wrap AND a parity skip (gap >= rto between the group's data packets) in exactly the last group before the wrap AND loss in the following group",
     also=['C09', 'C12'],
     checks={'C07 quick': 'caught: 32 violations, C07/fec-completeness/missing-not-reconstructed (fec-stream: encoder->decoder across the wrap with skipped groups)',
-            'C09 quick': 'missed (before the wrap stratum drew skips at the wrap; see notes)'},
+            'C09 quick': "caught: 9 runs, C09/wire/fec-id-range 'FEC id 4294967292 outside [0,4294967292)' (after stratum 'wrap' was added to the C09 plan; missed before)",
+            'C12 quick': 'caught: 24 runs, C12/C09-wire/fec-id-range and C12/fec-completeness/missing-not-reconstructed'},
     dup_of=['mut09 mutant1 (C09 agent)', 'mut12 mutant2 (C12 agent)'],
-    notes="Three agents (C07, C09, C12) independently produced this same change.")
+    notes="Three agents (C07, C09, C12) independently produced this same change. The C09 plan had no run near the FEC id wrap; the session-level 'wrap' stratum (sequence numbers, clock and FEC ids all near their wraps) now runs for C09 as well, decided by the wire oracle.")
 
 add('C07-discard-window-wrong-unit', 'mut07', 2, 'C07',
     "fecDecoder.discardShards compares a distance in sequence ids with a count of groups: a group is thrown away as soon as one packet of a newer group is seen",
@@ -60,3 +61,100 @@ add('C06-short-datagram-guard-wrong-constant', 'mut06', 2, 'C06',
     checks={'C06 quick': 'caught: 185 runs, C06/no-effect/crash-on-datagram-failing-the-check: panic slice bounds out of range @ (*UDPSession).packetInput (after the strengthening below)',
             'C05 quick': "caught: 39 runs, C05/survive/crash @ (*UDPSession).packetInput (forge-sess 'raw-short', added in response)"},
     notes="First evaluation: the C06 check SAW the crash (185 runs) but reported it as harness trouble (exit 2, 'undecidable here; see C05') because a process crash was only a violation for C02/C05/C10, and C05's scenarios sent no 16..19 byte datagrams to a ciphered dialled session. Strengthened: the worker journals a phase mark around each injection, and a crash inside the 'datagram failing the check is being processed' phase is a C06 violation; forge-sess gained raw short/truncated/bit-flipped/extended datagrams.")
+
+add('C09-encrypt-uses-decrypt-scratch', 'mut09', 2, 'C09',
+    "blockCrypt.Encrypt works in the decryption scratch buffer: a Decrypt landing between two block operations of an Encrypt corrupts the rest of the outgoing datagram",
+    change="crypt.go blockCrypt.Encrypt: encrypt(c.block, dst, src, c.encbuf)  ->  ... c.decbuf",
+    needs="a CFB block cipher AND an incoming datagram being decrypted while an outgoing one is part-way through encryption on the same BlockCrypt (true preemption inside encrypt())",
+    also=['C14'],
+    checks={'C09 quick': 'missed (Mode S serialises goroutines at library yield points; nothing preempts inside encrypt(), so the corrupted datagram is never produced there)',
+            'C14 quick': 'caught: 50 runs, C14/race/decrypt8|encrypt8 and decrypt16|encrypt16 (race detector, free-running mode)'},
+    notes="The C09 wire oracle would flag the corrupted datagram if it were produced; producing it needs a data race, which is C14's domain. Recorded as a limit of the serialised mode in DESIGN.md.")
+
+add('C02-stale-duplicate-not-acknowledged', 'mut02', 1, 'C02',
+    "a PUSH with sn < rcv_nxt (already delivered) is no longer acknowledged: if the ACK of the tail of a flight is lost the sender retransmits for ever",
+    change="kcp.go Input: ack_push(sn, ts) moved inside the 'sn >= rcv_nxt' test",
+    needs="loss of exactly the datagram carrying the ACK of the last data in flight, with no reverse data traffic at that moment",
+    checks={'C02 quick': 'caught: 193 runs, C02/liveness/backlog-not-drained (xfer after heal) and backlog-not-drained-enum (exhaustive 4-fate enumeration of the first datagrams, case [deliver drop deliver deliver])'})
+
+add('C02-probe-tells-instead-of-asks', 'mut02', 2, 'C02',
+    "when the zero-window probe timer fires the sender emits WINS (tell) instead of WASK (ask): nobody ever answers",
+    change="kcp.go flush: kcp.probe |= IKCP_ASK_SEND  ->  IKCP_ASK_TELL",
+    needs="receiver's queue full (zero window advertised), everything in flight acknowledged, backlog in snd_queue, reader resumes, and the single unsolicited WINS is lost",
+    also=['C03'],
+    checks={'C02 quick': 'caught: 14 runs, C02/liveness/backlog-not-drained',
+            'C03 quick': 'caught: 56 runs, C03/resume/transfer-does-not-resume'})
+
+add('C03-store-test-uses-advertised-window', 'mut03', 1, 'C03',
+    "parse_data tests sn against rcv_nxt+wnd_unused() instead of rcv_nxt+rcv_wnd while Input acknowledges against rcv_wnd: with a stalled reader an overshoot segment is acknowledged but thrown away",
+    change="kcp.go parse_data: kcp.rcv_nxt+kcp.rcv_wnd  ->  kcp.rcv_nxt+uint32(kcp.wnd_unused())",
+    needs="a stalled or slow reader plus a sender that overshoots the currently advertised window (initial rmt_wnd 32 against a smaller rcv_wnd with nc=1, reordered ACKs, FEC-recovered una)",
+    checks={'C03 quick': 'caught: 111 runs, C03/resume/transfer-does-not-resume and C03/C01-stream/incomplete',
+            'C01 quick': 'missed (correct: what is delivered is still a prefix; the loss of liveness is C02/C03 territory)'})
+
+add('C03-probe-only-with-empty-snd-buf', 'mut03', 2, 'C03',
+    "zero-window probing only when snd_buf is empty: an acked-but-not-yet-shrunk entry in snd_buf suppresses probing for ever",
+    change="kcp.go flush: if kcp.rmt_wnd == 0  ->  if kcp.rmt_wnd == 0 && kcp.snd_buf.Len() == 0",
+    needs="overshoot (rcv_wnd below the assumed 32 with nc=1), the sender having written between rcv_wnd+1 and 2*rcv_wnd segments when the reader stalls so that the last one is acked selectively, and the WINS sent on resume lost",
+    checks={'C03 quick': 'caught: 2 runs, C03/resume/transfer-does-not-resume (thin at the quick tier; thorough runs 40x as many)'})
+
+add('C10-parity-size-not-reset-on-skipped-group', 'mut10', 1, 'C10',
+    "fecEncoder.maxSize is reset only when parity was generated: after a skipped group a stale (larger) size cuts the parity of later groups, also after an accepted MTU reduction",
+    change="fec.go encode: enc.maxSize = 0 moved into the branch that generated parity",
+    needs="FEC on, a group that ends after an idle gap >= rto (parity skipped) and held a big packet, a later ACCEPTED SetMtu reduction, then a continuous group",
+    checks={'C10 quick': "caught: 2 runs, C10/mtu/datagram-exceeds-mtu 'datagram of 1400 bytes exceeds MTU 1214' (sess-mtu stratum 'skip-shrink', added in response)"},
+    notes="First evaluation: missed. sess-mtu had no idle gaps >= rto, so parity was never skipped before a reduction. The new stratum writes with pauses of 100..600 ms and walks the MTU down a staircase. Oversize parity of a group that STRADDLES the reduction stays the recorded finding F2; this change makes groups wholly after the reduction oversize, which is reported.")
+
+add('C10-window-announcement-without-room-check', 'mut10', 2, 'C10',
+    "flush appends the WINS header without makeSpace: up to 23 bytes beyond the MTU are handed to output",
+    change="kcp.go flush: makeSpace(IKCP_OVERHEAD) before IKCP_CMD_WINS dropped",
+    needs="in ONE flush: a pending WINS (peer's WASK or a Recv on a full queue) and exactly enough pending ACKs to fill the datagram (mtu/24), which must survive the ACK filter",
+    checks={'C10 quick': "caught: 22 runs, C10/core-mtu/output-exceeds-mtu 'output callback invoked with size 48, core MTU is 39' and C10/mtu/datagram-exceeds-mtu at session level"})
+
+add('C11-fec-branch-does-not-read-sn', 'mut11', 1, 'C11',
+    "Listener.packetInput no longer reads sn from FEC data packets: every FEC data packet with a foreign conversation id looks like the start of a new conversation",
+    change="sess.go Listener.packetInput, case typeData: the line reading sn deleted",
+    needs="FEC traffic, a reconnect from the same address with a new conversation id, and a delayed datagram of the OLD conversation (sn != 0) arriving afterwards",
+    checks={'C11 quick': 'caught: 187 runs, C11/accept/wrong-conversation and C11/isolation/session-failed'})
+
+add('C11-backlog-guard-off-by-one', 'mut11', 2, 'C11',
+    "accept-backlog guard '>=' becomes '>': with exactly 128 pending peers one more new peer blocks the listener's only receive goroutine until the application accepts",
+    change="sess.go Listener.packetInput: len(l.chAccepts) >= cap(l.chAccepts)  ->  >",
+    needs="exactly 128 un-accepted peers, the application not accepting, one more first packet from another address, and established sessions with data still to move",
+    checks={'C11 quick': "caught: 3 of the 6 backlog runs, C11/isolation/established-session-stalled-by-unaccepted-peers (backlog stratum 'long stall', added in response)"},
+    notes="First evaluation: missed. The backlog stratum stalled the acceptor for at most 2 s at a time and judged only the final accept counts, so a receive goroutine blocked until the next Accept left no trace. Now: accept 1..5 peers, stop accepting for two virtual minutes while 129+ further peers arrive within a second; an established session with data pending must deliver something during the last minute (no completion time is demanded).")
+
+add('C12-receive-heap-plain-comparison', 'mut12', 1, 'C12',
+    "segmentHeap.Less compares sn with '<' instead of the wrap-aware difference: segments on both sides of 2^32 sort wrongly and the receive buffer never drains",
+    change="kcp.go segmentHeap.Less: _itimediff(sn_j, sn_i) > 0  ->  sn_i < sn_j",
+    needs="sequence numbers crossing 2^32 with loss or reordering exactly there",
+    checks={'C12 quick': 'caught: 37 runs, C12/metamorphic/trace-differs (core-wrap: shifted run vs run from 0)',
+            'C01 quick': 'missed (correct for its strata: C01 does not start near the wrap; C12 owns it)'})
+
+add('C13-write-timer-not-reenabled', 'mut13', 1, 'C13',
+    "WriteBuffers loses 'c = timeout.C' when re-arming its timer: after set -> clear -> set of the write deadline a blocked Write never times out",
+    change="sess.go WriteBuffers: the line c = timeout.C after timeout.Reset removed",
+    needs="a Write blocked on a full send window and the deadline sequence set -> zero -> set applied while that same call is blocked",
+    checks={'C13 quick': 'caught: 21 runs, C13/missed-wakeup/write-pending-past-deadline'})
+
+add('C13-no-read-event-after-fec-recovery', 'mut13', 2, 'C13',
+    "the read-event notification runs before the FEC recovery loop instead of after it: data that becomes readable only through reconstruction wakes nobody",
+    change="sess.go kcpInput (FEC case): the PeekSize()>0 -> notifyReadEvent() block moved before fecDecoder.decode",
+    needs="FEC on, a data shard lost so that the awaited segment exists only by reconstruction, the triggering packet being parity or an out-of-order data shard, and nothing arriving afterwards",
+    also=['C02'],
+    checks={'C13 quick': "caught: 317 runs, C13/missed-wakeup/read-pending-with-data 'a reader has been blocked in Read for 60.9ms although data is readable'",
+            'C02 quick': 'caught: 1 run, C02/liveness/backlog-not-drained'})
+
+add('C16-newest-id-not-reset-on-retune', 'mut16', 1, 'C16',
+    "the auto-tune branch no longer clears newestValid: after adopting a larger group size the stale newest id makes discardShards delete every current shard set",
+    change="fec.go decode (auto-tune branch): dec.newestValid = false deleted",
+    needs="receiver's group smaller than the sender's, a starting id not near zero, and a loss after convergence",
+    checks={'C16 quick': 'caught: 129 runs, C16/fec-completeness/missing-not-reconstructed (after convergence)',
+            'C07 quick': 'missed (correct: matching ratios never retune)'})
+
+add('C16-parameter-change-test-wrong-variable', 'mut16', 2, 'C16',
+    "the 'did the parameters change?' test compares the detected parity count with dec.dataShards: sender k/k against receiver k/x never converges",
+    change="fec.go decode (auto-tune branch): autoPS != dec.parityShards  ->  autoPS != dec.dataShards",
+    needs="a sender with equal data and parity counts and a receiver with the same data count but a different parity count (2/2 vs 2/1, 10/10 vs 10/3)",
+    checks={'C16 quick': "caught: 20 runs, C16/fec-convergence/not-converged 'the decoder is at 100/33, the sender uses 100/100' (1 run before the generator drew related pairs deliberately)"},
+    notes="First evaluation: 1 run of 3860. The generator drew sender and receiver ratios independently; it now draws related pairs (same data count, same parity count, same sum, swapped, equal counts at the sender) in a third of the mismatch runs.")
